@@ -448,6 +448,67 @@ def r10_4(prog, rep):
         rep.broken_("rule=R10.4 expected >=5 uses of search results in the parser, found %d" % n)
 
 
+def r10_5(prog, rep):
+    """Where a piece ends must not decide what comes out.  (a) esccpy() is called once per pushed piece and keeps no state: inside its
+    copy loop no decision may compare the source position with the piece length (a look-ahead `si + 1 >= sz` makes the last byte of a
+    piece special).  (b) whether a parse is started at all (_ical_init_push) may depend on the piece being empty, not on how long it is."""
+    rid = "R10.5"
+    e = prog.fn("esccpy", "evical.c")
+    cfg = e.cfg
+    if len(e.params) < 4:
+        raise AnalysisBroken("esccpy: unexpected signature")
+    sz = e.params[3]["n"]
+    loops = cfg.natural_loops()
+    heads = set(loops)
+    nloop = 0
+    bad = []
+    for b in cfg.blocks:
+        c = cfg.cond(b)
+        if c is None:
+            continue
+        c = e.expand(c)
+        reads_sz = any(nn.get("k") == "ref" and nn.get("n") == sz for nn in walk(c))
+        if not reads_sz:
+            continue
+        if b in heads:
+            nloop += 1
+            continue
+        if any(b in blks for blks in loops.values()):
+            bad.append((b, cfg.blocks[b].elems[-1].get("line"), show(c)))
+    if nloop < 1:
+        raise AnalysisBroken("esccpy: the copy loop bounded by the piece length was not found")
+    if bad:
+        rep.fail(rid, "esccpy/no-decision-on-piece-end", e.loc(bad[0][1]), "inside the copy loop `%s` compares the source position with the piece length: "
+                 "the byte(s) at the end of a pushed piece are treated differently from the same bytes in the middle of one, so the parsed "
+                 "text depends on where the input was cut" % bad[0][2])
+    else:
+        rep.ok(rid, "esccpy/no-decision-on-piece-end", e.loc(), "the piece length only bounds the copy loop (%d loop test%s)" % (nloop, "" if nloop == 1 else "s"))
+    ip = prog.fn("_ical_init_push", "evical.c")
+    icfg = ip.cfg
+    lens = [p_["n"] for p_ in ip.params if p_.get("t") in ("size_t", "unsigned long", "unsigned int")]
+    if not lens:
+        raise AnalysisBroken("_ical_init_push: length parameter not found")
+    ln = lens[0]
+    bad = []
+    for b in icfg.blocks:
+        c = icfg.cond(b)
+        if c is None:
+            continue
+        for a in cond_atoms(ip.expand(c), True):
+            if len(a) == 5 and (a[1] == ln or a[2] == ln):
+                other = a[4] if a[1] == ln else a[3]
+                v = const_eval(ip, other)
+                if v != 0:
+                    bad.append((icfg.blocks[b].elems[-1].get("line"), "%s %s %s" % (a[1], a[0], a[2])))
+            elif len(a) == 5 and any(nn.get("k") == "ref" and nn.get("n") == ln for x_ in (a[3], a[4]) for nn in walk(x_)):
+                bad.append((icfg.blocks[b].elems[-1].get("line"), "%s %s %s" % (a[1], a[0], a[2])))
+    if bad:
+        rep.fail(rid, "_ical_init_push/first-piece-length-free", ip.loc(bad[0][0]), "whether a parse is started depends on the length of the first piece (`%s`): "
+                 "the same calendar fed in shorter pieces is refused" % bad[0][1])
+    else:
+        rep.ok(rid, "_ical_init_push/first-piece-length-free", ip.loc(), "a parse is started for every non-empty first piece")
+
+
 def run(prog, rep, tier, snap):
     rep.rule("R10.1", "stash discipline: bounded stores in esccpy, cursor writes, subscripts, partial-line guard", 10)
     rep.call(r10_1, prog, rep)
@@ -458,4 +519,6 @@ def run(prog, rep, tier, snap):
     rep.call(r10_3, prog, rep)
     rep.rule("R10.4", "results of strchr/strpbrk/memchr are tested before they are dereferenced or advanced", 5)
     rep.call(r10_4, prog, rep)
+    rep.rule("R10.5", "where a piece ends does not decide what comes out (escape copier, start of a parse)", 2)
+    rep.call(r10_5, prog, rep)
 READY = True
